@@ -415,47 +415,29 @@ fn c16_parse_multiplicative() {
 }
 
 
-/// Unary level: a run of up to three prefix operators out of {'!', '~', '-'} (optionally separated by blanks) in
-/// front of an operand must produce exactly that nest of LogicalNot / BitwiseNot / Negate nodes, outermost first,
-/// over an operand taken from the primary level -- in particular `!!x` is two nodes (GNU ld: `!!x` == (x != 0)).
-#[kani::proof]
-#[kani::unwind(6)]
-#[kani::stub(parse_logical_or, stub_logical_or)]
-#[kani::stub(parse_logical_and, stub_logical_and)]
-#[kani::stub(parse_bitwise_or, stub_bitwise_or)]
-#[kani::stub(parse_bitwise_xor, stub_bitwise_xor)]
-#[kani::stub(parse_bitwise_and, stub_bitwise_and)]
-#[kani::stub(parse_comparison, stub_comparison)]
-#[kani::stub(parse_shift, stub_shift)]
-#[kani::stub(parse_additive, stub_additive)]
-#[kani::stub(parse_multiplicative, stub_multiplicative)]
-#[kani::stub(parse_primary, stub_primary)]
-fn c16_parse_unary() {
-    let ops: [u8; 3] = kani::any();
-    let n: usize = kani::any();
-    kani::assume(n <= 3);
+/// Unary level: a run of N prefix operators out of {'!', '~', '-'} in front of an operand must produce exactly that
+/// nest of LogicalNot / BitwiseNot / Negate nodes, outermost first, over an operand taken from the primary level -- in
+/// particular `!!x` is two nodes (GNU ld: `!!x` == (x != 0)).  One harness per N (the recursion depth is then concrete).
+fn parse_unary_nest<const N: usize>() {
+    let ops: [u8; N] = kani::any();
     let mut buf = [b' '; 6];
-    let mut len = 0;
     let mut i = 0;
-    while i < n {
+    while i < N {
         kani::assume(ops[i] == b'!' || ops[i] == b'~' || ops[i] == b'-');
-        buf[len] = ops[i];
-        len += 1;
+        buf[i] = ops[i];
         i += 1;
     }
-    buf[len] = b'7';
-    len += 1;
-    buf[len] = b'+'; // something that does not belong to the unary level
-    len += 1;
-    let mut input: &BStr = BStr::new(&buf[..len]);
+    buf[N] = b'7';
+    buf[N + 1] = b'+'; // something that does not belong to the unary level
+    let mut input: &BStr = BStr::new(&buf[..N + 2]);
     let r = parse_unary(&mut input);
     let Ok(tree) = r else { return };
-    kani::cover!(n == 3, "three stacked prefix operators");
-    kani::cover!(n == 2 && ops[0] == b'!' && ops[1] == b'!', "double logical not");
+    kani::cover!(true, "accepted");
+    kani::cover!(N < 2 || (ops[0] == b'!' && ops[1] == b'!'), "double logical not");
     assert!(input.len() == 1, "C16.parse unary level consumes its operators and one operand, nothing more");
     let mut node: &Expression<'_> = &tree;
     i = 0;
-    while i < n {
+    while i < N {
         let (kind, inner): (u8, &Expression<'_>) = match node {
             Expression::LogicalNot(e) => (b'!', e),
             Expression::BitwiseNot(e) => (b'~', e),
@@ -469,3 +451,26 @@ fn c16_parse_unary() {
     assert!(leaf_value(node) == Some(16 * T_PRIMARY + 7), "C16.parse unary operand comes from the primary level");
     std::mem::forget(tree);
 }
+
+macro_rules! unary_harness {
+    ($name:ident, $n:expr, $u:expr) => {
+        #[kani::proof]
+        #[kani::unwind($u)]
+        #[kani::stub(parse_logical_or, stub_logical_or)]
+        #[kani::stub(parse_logical_and, stub_logical_and)]
+        #[kani::stub(parse_bitwise_or, stub_bitwise_or)]
+        #[kani::stub(parse_bitwise_xor, stub_bitwise_xor)]
+        #[kani::stub(parse_bitwise_and, stub_bitwise_and)]
+        #[kani::stub(parse_comparison, stub_comparison)]
+        #[kani::stub(parse_shift, stub_shift)]
+        #[kani::stub(parse_additive, stub_additive)]
+        #[kani::stub(parse_multiplicative, stub_multiplicative)]
+        #[kani::stub(parse_primary, stub_primary)]
+        fn $name() {
+            parse_unary_nest::<$n>();
+        }
+    };
+}
+unary_harness!(c16_parse_unary_1, 1, 4);
+unary_harness!(c16_parse_unary_2, 2, 5);
+unary_harness!(c16_parse_unary_3, 3, 6);
